@@ -1019,6 +1019,8 @@ impl RawPixels {
 pub open spec fn ts_flag(d: Seq<u8>, bit: int) -> bool { (le_u32(d, 4) / bit) % 2 == 1 }
 pub open spec fn ts_head_ok(d: Seq<u8>) -> bool {
     &&& d.len() >= 32 && le_u16(d, 12) >= 1 && le_u16(d, 14) >= 1
+    // C05: Tileset::image() is tile height * tile count rows high - that has to be a u32 image dimension
+    &&& le_u32(d, 8) * le_u16(d, 14) <= 0xffff_ffff
     &&& str_fits(d, 32) && utf8_ok(str_bytes(d, 32))
     &&& ts_flag(d, 1) ==> str_end(d, 32) + 8 <= d.len()
 }
@@ -1044,7 +1046,10 @@ pub open spec fn ts_head_ok(d: Seq<u8>) -> bool {
                      "                &&& (t.external_file is Some) == ts_flag(d, 1)\n"
                      "                &&& ts_flag(d, 1) ==> t.external_file->0.external_file_id.0 as int == le_u32(d, str_end(d, 32)) && t.external_file->0.tileset_id as int == le_u32(d, str_end(d, 32) + 4)\n"
                      "                &&& (t.pixels is Some) == ts_flag(d, 2) }) }),"),
-         "hints": [("let empty_tile_is_id_zero =", "        let ghost fl = le_u32(data@, 4) as u32;\n"
+         "hints": [("let tile_height = reader.word()?;",
+                    "        assert((tile_count as int) * (tile_height as int) <= 0xffff_ffff * 0xffff) by (nonlinear_arith)\n"
+                    "            requires 0 <= (tile_count as int) <= 0xffff_ffff, 0 <= (tile_height as int) <= 0xffff;", "after"),
+                   ("let empty_tile_is_id_zero =", "        let ghost fl = le_u32(data@, 4) as u32;\n"
                     "        assert(flags.bits == fl & 7);\n"
                     "        assert(((fl & 7) & 1 == 1) == ((fl / 1) % 2 == 1)) by (bit_vector);\n"
                     "        assert(((fl & 7) & 2 == 2) == ((fl / 2) % 2 == 1)) by (bit_vector);\n"
